@@ -16,8 +16,8 @@ theorem keyedFields_own (F : Facts03) (hF : F.subNameScope = .member) (cont : Op
     keyedFields F cont fs = ownFields fs := by
   match fs with
   | [] => rfl
-  | (n, sub, occ, t) :: r =>
-    simp only [keyedFields, ownFields, keyedTy_own F hF sub t, keyedFields_own F hF cont r]
+  | (n, a, occ, t) :: r =>
+    simp only [keyedFields, ownFields, keyedTy_own F hF a.sub t, keyedFields_own F hF cont r]
     cases cont <;> simp [keyName, hF]
 end
 
@@ -46,5 +46,45 @@ theorem isWsdl_firstName (F : Facts03) (hF : F.wsdlRule = .firstName) (qs : Text
             simpa using hne
       exact this qs hd
     exact ⟨r, by rw [hc]⟩
+
+/-! ## request headers -/
+
+theorem setDoc_new (d : Doc) (k : Text) (v : List (Option Text)) (h : k ∉ d.map Prod.fst) :
+    setDoc d k v = d ++ [(k, v)] := by
+  induction d with
+  | nil => rfl
+  | cons a r ih =>
+    obtain ⟨k', v'⟩ := a
+    simp only [List.map_cons, List.mem_cons, not_or] at h
+    simp only [setDoc, Ne.symm h.1, if_false, List.cons_append, ih h.2]
+
+theorem httpHeaders_go (ps : List (Text × Text)) (acc : Doc)
+    (hn : (ps.map (fun p => p.1.map asciiLower)).Nodup)
+    (hd : ∀ p, p ∈ ps → p.1.map asciiLower ∉ acc.map Prod.fst) :
+    (ps.map fun p => ("HTTP_".toList ++ p.1, p.2)).foldl (fun acc kv =>
+      if "HTTP_".toList.isPrefixOf kv.1 then setDoc acc ((kv.1.drop 5).map asciiLower) [some kv.2] else acc) acc =
+    acc ++ ps.map fun p => (p.1.map asciiLower, [some p.2]) := by
+  induction ps generalizing acc with
+  | nil => simp
+  | cons p r ih =>
+    simp only [List.map_cons, List.nodup_cons] at hn
+    have hpre : "HTTP_".toList.isPrefixOf ("HTTP_".toList ++ p.1) = true := by
+      simp [List.isPrefixOf]
+    have hdrop : ("HTTP_".toList ++ p.1).drop 5 = p.1 := by simp
+    simp only [List.map_cons, List.foldl_cons, hpre, if_true, hdrop]
+    rw [setDoc_new acc _ _ (hd p List.mem_cons_self)]
+    rw [ih _ hn.2]
+    · simp
+    · intro q hq
+      simp only [List.map_append, List.map_cons, List.map_nil, List.mem_append, List.mem_singleton, not_or]
+      refine ⟨hd q (List.mem_cons_of_mem _ hq), ?_⟩
+      intro e
+      exact hn.1 (List.mem_map.mpr ⟨q, hq, e⟩)
+
+/-- the request headers `HTTP_<NAME>: value` arrive as the flat document `<name> -> [value]`, names in lower case -/
+theorem httpHeaders_pairs (ps : List (Text × Text)) (hn : (ps.map (fun p => p.1.map asciiLower)).Nodup) :
+    httpHeaders (ps.map fun p => ("HTTP_".toList ++ p.1, p.2)) = ps.map fun p => (p.1.map asciiLower, [some p.2]) := by
+  have := httpHeaders_go ps [] hn (fun _ _ => by simp)
+  simpa [httpHeaders] using this
 
 end SpyneModel.Flat
